@@ -41,6 +41,8 @@ pub struct RefGame {
 	pub junk_after_end: usize,
 	/// whether any row has an absent character / repeated id / items (non-triviality)
 	pub has_absence: bool,
+	/// (prefix mode) the stream stops inside a frame
+	pub open_at_end: bool,
 	pub has_rollback: bool,
 	pub has_items: bool,
 }
@@ -71,6 +73,12 @@ const KNOWN: [u8; 10] = [0x10, 0x35, 0x36, 0x37, 0x38, 0x39, 0x3A, 0x3B, 0x3C, 0
 /// Walk a replay the way the format defines it. `Err` means the input is outside the model's
 /// domain (not a well-formed-up-to-tolerated-irregularities replay); it is never a verdict.
 pub fn refparse(b: &[u8]) -> Result<RefGame, String> {
+	refparse_opts(b, false)
+}
+
+/// `allow_open`: the stream may stop in the middle of a frame (a prefix of an event history); the
+/// open row is then kept in `rows` but not counted as completed.
+pub fn refparse_opts(b: &[u8], allow_open: bool) -> Result<RefGame, String> {
 	let mut g = RefGame::default();
 	if b.len() < 15 || b[..11] != SIGNATURE {
 		return Err("signature".into());
@@ -329,7 +337,7 @@ pub fn refparse(b: &[u8]) -> Result<RefGame, String> {
 			break;
 		}
 	}
-	if open {
+	if open && !allow_open {
 		// regimes without Frame End: the last frame is closed by the end of the stream
 		if regime == 2 {
 			// an unfinished frame in a >= 3.0 replay: peppi leaves the row ragged; outside the model
@@ -337,13 +345,16 @@ pub fn refparse(b: &[u8]) -> Result<RefGame, String> {
 		}
 		close_row(&mut g, &mut ever_absent);
 	}
-	for r in &g.rows {
-		for c in r.chars.iter().flatten().flatten() {
-			if c.post.is_empty() {
-				return Err("pre without post".into());
+	if !allow_open {
+		for r in &g.rows {
+			for c in r.chars.iter().flatten().flatten() {
+				if c.post.is_empty() {
+					return Err("pre without post".into());
+				}
 			}
 		}
 	}
+	g.open_at_end = open && allow_open;
 	// what follows Game End inside raw
 	if pos < raw_end {
 		let rest = &b[pos..raw_end];
